@@ -4,7 +4,7 @@
 # suite passes with it, the demonstration fails with it and passes without it.
 set -u
 patch="$1"; demo="$2"; name="$3"
-wt=/tmp/confirm/wt
+wt=${CONFIRM_WT:-/tmp/confirm/wt}
 if [ ! -d "$wt" ]; then
   mkdir -p /tmp/confirm
   git -C /repo worktree add -q --detach "$wt" HEAD || exit 2
